@@ -155,7 +155,28 @@ def build(kind, x):
     return b(x)
 
 
-BUILDERS = {}
+def build_dt(v):
+    return None if v is None else datetime.datetime.fromtimestamp(float(v)).astimezone()
+
+
+def build_trial(d):
+    params = {k: dec(v) for k, v in d.get('parameters', [])}
+    kw = {}
+    if 'creation_time' in d:
+        kw['creation_time'] = build_dt(d['creation_time'])
+    t = trial_lib.Trial(
+        parameters=params, id=int(d.get('id', 0)), is_requested=bool(d.get('is_requested', False)),
+        assigned_worker=d.get('assigned_worker'), stopping_reason=d.get('stopping_reason'),
+        infeasibility_reason=d.get('infeasibility_reason'), description=d.get('description'),
+        final_measurement=None if d.get('final_measurement') is None else build_measurement(d['final_measurement']),
+        measurements=[build_measurement(x) for x in d.get('measurements', [])],
+        completion_time=build_dt(d.get('completion_time')), **kw)
+    for ns, k, v in d.get('metadata', []):
+        t.metadata.abs_ns(common.Namespace(tuple(ns)))[k] = v
+    return t
+
+
+BUILDERS = {'Trial': build_trial}
 
 
 def converters(kind, x):
@@ -171,7 +192,7 @@ def converters(kind, x):
     return c(x)
 
 
-CONVERTERS = {}
+CONVERTERS = {'Trial': lambda x: (pc.TrialConverter.to_proto, pc.TrialConverter.from_proto)}
 
 
 def run_job(job):
